@@ -264,6 +264,7 @@ class World:
         self.disps = {}
         self.completions = []
         self.wills = {}
+        self.turns = set()
         if self.schedule == "random":
             self.loop.policy = lambda live: self._rnd.randrange(len(live))
         self.cap = _Capture()
@@ -416,6 +417,9 @@ class World:
             try:
                 op = await self.gate(name)
             except asyncio.CancelledError:
+                if name in self.turns and not self.closing:
+                    # user code that answers a cancellation with an exception of its own
+                    raise Err(f"task {name} turns its cancellation into an error") from None
                 # a task with a "will" spawns one more task through the context from its cancellation handler
                 chooser = self.wills.pop(name, None)
                 child = chooser() if chooser is not None else None  # the heir is chosen when the will is executed
@@ -573,6 +577,8 @@ class World:
                     await r
             elif k == "will":
                 self.wills[name] = op[1]
+            elif k == "turn":
+                self.turns.add(name)
             elif k == "nop":
                 pass
             else:
